@@ -25,9 +25,13 @@ TRANSLATED = {'C17': ('calendar_src', 'extract_calendar', 'calendar.py'), 'C18':
               'C09': ('schedule_src', 'extract_schedule', 'pass_src', 'extract_pass'),
               'C02': ('pass_src', 'extract_pass'), 'C07': ('pass_src', 'extract_pass'),
               'C14': ('calc_src', 'extract_calc', 'pass_src', 'extract_pass', 'schedule_src', 'extract_schedule'),
-              'C06': ('calc_src', 'extract_calc', 'pass_src', 'extract_pass', 'schedule_src', 'extract_schedule'),
-              'C01': ('task_src', 'extract_task'), 'C05': ('task_src', 'extract_task'), 'C11': ('task_src', 'extract_task'),
-              'C15': ('task_src', 'extract_task'), 'C16': ('task_src', 'extract_task')}
+              'C06': ('calc_src', 'extract_calc', 'pass_src', 'extract_pass', 'schedule_src', 'extract_schedule', 'task_src', 'extract_task',
+                      'wbs_src', 'extract_wbs'),
+              'C01': ('task_src', 'extract_task'), 'C05': ('task_src', 'extract_task', 'wbs_src', 'extract_wbs'),
+              'C11': ('task_src', 'extract_task', 'wbs_src', 'extract_wbs'),
+              'C15': ('task_src', 'extract_task', 'facade_src', 'extract_facade'),
+              'C16': ('task_src', 'extract_task', 'wbs_src', 'extract_wbs', 'facade_src', 'extract_facade'),
+              'C10': ('task_src', 'extract_task', 'wbs_src', 'extract_wbs')}
 
 
 CASE_TIMEOUT = float(os.environ.get('VERIF_CASE_TIMEOUT', '20'))
